@@ -124,7 +124,8 @@ pub open spec fn render_spec(kind: Seq<char>, rendered: Seq<char>, unprintable: 
         if unprintable { with_mod(protect(rendered), escaped_word(), q) }
         else if q.len() == 0 { if mod_end { with_mod(rendered, equal_word(), q) } else { rendered } }
         else { with_mod(rendered, Seq::empty(), q) }
-    } else { with_mod(rendered, kind, q) }
+    } else if kind == escaped_word() { with_mod(protect(rendered), kind, q) }
+    else { with_mod(rendered, kind, q) }
 }
 /// a line written as `rendered (kind quantifier)` with a registered kind and/or a quantifier reads back as exactly these parts
 pub proof fn lemma_with_mod_parts(reg: OpaqueRegistry, rendered: Seq<char>, k: Seq<char>, q: Seq<char>)
@@ -138,7 +139,7 @@ pub proof fn lemma_with_mod_parts(reg: OpaqueRegistry, rendered: Seq<char>, k: S
     lemma_line_parts(reg, l, rendered, k, q);
 }
 /// the expression as it is written: an escaped rendering never ends in ` (no-eol)` (see `protect`)
-pub open spec fn written_expr(kind: Seq<char>, rendered: Seq<char>, unprintable: bool) -> Seq<char> { if kind == equal_word() && unprintable { protect(rendered) } else { rendered } }
+pub open spec fn written_expr(kind: Seq<char>, rendered: Seq<char>, unprintable: bool) -> Seq<char> { if (kind == equal_word() && unprintable) || kind == escaped_word() { protect(rendered) } else { rendered } }
 /// the kind under which a rule is written
 pub open spec fn written_kind(kind: Seq<char>, unprintable: bool) -> Seq<char> { if kind == equal_word() && unprintable { escaped_word() } else { kind } }
 pub open spec fn is_bare(kind: Seq<char>, unprintable: bool, optional: bool, multiline: bool) -> bool {
@@ -153,7 +154,8 @@ pub proof fn lemma_render_marked(reg: OpaqueRegistry, kind: Seq<char>, rendered:
     let q = quant_of(opt, multi);
     if kind == equal_word() {
         if unp { lemma_with_mod_parts(reg, protect(rendered), escaped_word(), q); } else { lemma_with_mod_parts(reg, rendered, Seq::empty(), q); }
-    } else { lemma_with_mod_parts(reg, rendered, kind, q); }
+    } else if kind == escaped_word() { lemma_with_mod_parts(reg, protect(rendered), kind, q); }
+    else { lemma_with_mod_parts(reg, rendered, kind, q); }
 }
 /// a bare `equal` line reads back as the whole line when the choice between bare and ` (equal)` is made by has_proper_mod
 pub proof fn lemma_render_bare(reg: OpaqueRegistry, rendered: Seq<char>)
